@@ -73,17 +73,27 @@ BODIES = {
         ('O2', [ASG(SF('N'), B('+', SF('N'), P('k'))), RET(SF('N'))]),
         ('O3', [RET(B('+', F_('f', n=SF('N')), SF('D')))]),
         ('O4', [ASG(V('x'), I(7)), ASG(V('y'), F_('g', n=V('x'), m=P('k'))), RET(B('+', B('*', V('x'), I(1000)), V('y')))]),
+        # re-entrant: the same operation on another instance; param and self are used AFTER the nested call
+        ('O5', [('selfrom', 'any', 'o', 'A', B('==', ('field', ('selected',), 'N'), B('+', SF('N'), I(1))), True),
+                IF(('un', 'empty', V('o')), [RET(P('k'))]),
+                ASG(V('r'), ('icall', V('o'), 'op', [('k', B('+', P('k'), I(1)))])),
+                RET(B('+', B('+', B('*', V('r'), I(100)), B('*', SF('N'), I(10))), P('k')))]),
+        ('O6', [('selfrom', 'any', 'o', 'A', B('==', ('field', ('selected',), 'N'), B('+', SF('N'), I(1))), True),
+                IF(('un', 'not_empty', V('o')), [ASG(V('r'), ('icall', V('o'), 'op', [('k', I(5))]))]),
+                ASG(SF('N'), B('+', SF('N'), P('k')))]),     # executes no return after a nested call that returned a value
     ],
     'cop': [  # A.cop(k: integer), class based
         ('C1', [RET(B('*', P('k'), I(2)))]),
         ('C2', [('selfrom', 'any', 'a', 'A', None, True), IF(('un', 'empty', V('a')), [RET(B('-', I(0), I(1)))]),
                 RET(('icall', V('a'), 'op', [('k', P('k'))]))]),
         ('C3', [('create', 'a', 'A'), ASG(('field', V('a'), 'N'), P('k')), RET(('field', V('a'), 'N'))]),
+        ('C4', [IF(B('<=', P('k'), I(1)), [RET(I(1))]), RET(B('*', ('ncall', 'A', 'cop', [('k', B('-', P('k'), I(1)))]), P('k')))]),
     ],
     'D': [   # derived attribute A.D: expression assigned to self.D
         ('D1', B('*', SF('N'), I(2))),
         ('D2', F_('f', n=SF('N'))),
-        ('D3', 'count-all'),      # select many as_ from instances of A; self.D = cardinality as_ + self.N;
+        ('D3', 'count-all'),
+        ('D4', 'chain-depth'),    # depth along instances ordered by N: reads the same-named attribute of another instance      # select many as_ from instances of A; self.D = cardinality as_ + self.N;
     ],
     'b': [   # EE::b(p: integer)
         ('B1', [RET(B('+', P('p'), I(1)))]),
@@ -103,6 +113,12 @@ def derived_statements(name, derived, as_return=False):
     if derived == 'count-all':
         e = B('+', ('un', 'cardinality', V('as_')), SF('N'))
         return [('selfrom', 'many', 'as_', 'A', None, True), RET(e) if as_return else ASG(SF(name), e)]
+    if derived == 'chain-depth':
+        other = ('field', V('o'), name)
+        sel = ('selfrom', 'any', 'o', 'A', B('==', ('field', ('selected',), 'N'), B('-', SF('N'), I(1))), True)
+        if as_return:
+            return [sel, IF(('un', 'empty', V('o')), [RET(I(0))]), RET(B('+', other, I(1)))]
+        return [sel, IF(('un', 'empty', V('o')), [ASG(SF(name), I(0))], [], [ASG(SF(name), B('+', other, I(1)))])]
     return [RET(derived) if as_return else ASG(SF(name), derived)]
 
 
@@ -129,7 +145,7 @@ def systems(tier):
     for s, n in zip(SLOTS, sizes):
         for i in range(n):
             add(dict(base, **{s: i}))
-    sub = dict(f=[1, 2, 7], g=[0, 2], h=[0, 1], op=[2, 3], cop=[1], D=[0, 2], b=[1, 2])
+    sub = dict(f=[1, 2, 7], g=[0, 2], h=[0, 1], op=[2, 4], cop=[1, 3], D=[2, 3], b=[1, 2])
     for combo in itertools.product(*[sub[s] for s in SLOTS]):
         add(dict(zip(SLOTS, combo)))
     return out
@@ -295,6 +311,9 @@ def entries():
         out.append(('py:h(False,1)', pop, 'pyfunc', ('h', dict(n=1, b=False))))
         out.append(('py:cop(1)', pop, 'pycop', dict(k=1)))
         out.append(('py:EE.b(1)', pop, 'pybridge', dict(p=1)))
+    out.append(('py:op(1) on first of a chain', [1, 2, 3], 'pyop', (0, dict(k=1))))
+    out.append(('py:cop(3)', [1, 2], 'pycop', dict(k=3)))
+    out.append(('py:D of the last of a chain', [0, 1, 2], 'pyderived', 2))
     out.append(('py:op(1) on first', [2, 0], 'pyop', (0, dict(k=1))))
     out.append(('py:op(2) on second', [2, 1], 'pyop', (1, dict(k=2))))
     out.append(('py:D read, write N, read again', [2, 0], 'pyderived', 0))
